@@ -7,7 +7,10 @@ package simos
 import (
 	"io"
 	"runtime"
+	"sync"
 	"sync/atomic"
+
+	"servitor/verifshim/simrt"
 )
 
 var Args = []string{"servitor"}
@@ -59,9 +62,74 @@ func (f *File) Write(b []byte) (int, error) {
 
 func (f *File) WriteString(s string) (int, error) { return f.Write([]byte(s)) }
 
-// Read: the keyboard is driven by the harness through ui.State.Update (one goroutine per key,
-// as main.go's read loop does); the transplanted loop itself is not run, so reading ends.
-func (f *File) Read(b []byte) (int, error) { return 0, io.EOF }
+// The keyboard: the harness feeds bytes with Feed; main.go's read loop takes them one at a time.
+var (
+	stdinMu     sync.Mutex
+	stdinQ      []byte
+	stdinWaiter chan struct{}
+	stdinClosed bool
+)
+
+// ResetStdin empties the keyboard buffer (start of a session).
+func ResetStdin() {
+	stdinMu.Lock()
+	stdinQ, stdinClosed = nil, false
+	if stdinWaiter != nil {
+		close(stdinWaiter)
+		stdinWaiter = nil
+	}
+	stdinMu.Unlock()
+}
+
+// Feed types bytes on the keyboard.
+func Feed(b ...byte) {
+	stdinMu.Lock()
+	stdinQ = append(stdinQ, b...)
+	if stdinWaiter != nil {
+		close(stdinWaiter)
+		stdinWaiter = nil
+	}
+	stdinMu.Unlock()
+}
+
+// Unread reports how many typed bytes the program has not read yet.
+func Unread() int {
+	stdinMu.Lock()
+	defer stdinMu.Unlock()
+	return len(stdinQ)
+}
+
+// WakeStdin releases a parked reader (used while a run is being unwound).
+func WakeStdin() {
+	stdinMu.Lock()
+	if stdinWaiter != nil {
+		close(stdinWaiter)
+		stdinWaiter = nil
+	}
+	stdinMu.Unlock()
+}
+
+func (f *File) Read(b []byte) (int, error) {
+	if f.fd != 0 {
+		return 0, io.ErrClosedPipe
+	}
+	for {
+		if s := simrt.Cur(); s != nil && s.Draining() {
+			runtime.Goexit() // the run is over: the read loop ends here
+		}
+		stdinMu.Lock()
+		if len(stdinQ) > 0 && len(b) > 0 {
+			n := copy(b, stdinQ)
+			stdinQ = stdinQ[n:]
+			stdinMu.Unlock()
+			return n, nil
+		}
+		ch := make(chan struct{})
+		stdinWaiter = ch
+		stdinMu.Unlock()
+		<-ch
+	}
+}
 
 func (f *File) Close() error { return nil }
 
